@@ -277,6 +277,16 @@ let do_line (line : string) =
        let heading = str () in
        let jobs = counted jobview in
        print_str (table ww has_tz heading jobs)
+     | "STHR" ->
+       let mx = zz () in
+       let tz = ostr () in
+       let pname = str () in
+       let jobs = counted jobview in
+       print_str (sched_str_thr mx tz pname jobs)
+     | "SAIO" ->
+       let tz = ostr () in
+       let jobs = counted jobview in
+       print_str (sched_str_aio tz jobs)
      | "JOBSTR" ->
        let ww = boolean () in
        print_str (job_str ww (jobview ()))
